@@ -43,6 +43,12 @@ func linkedIPHandler(
 		r.SetURL(apiURL)
 		r.Out.Host = apiURL.Host
 
+		// Set the real IP again, since the client could have made the proxy
+		// remove it by listing it in the Connection header.
+		if ip, err := netutil.SplitHost(r.In.RemoteAddr); err == nil {
+			r.Out.Header.Set(httphdr.XConnectingIP, ip)
+		}
+
 		// Make sure that all requests are marked with our user agent.
 		r.Out.Header.Set(httphdr.UserAgent, agdhttp.UserAgent())
 	}
